@@ -387,3 +387,111 @@ def chunkSizes (s : Bytes) : List Nat × Bool :=
 termination_by s.length
 
 end XC.C44
+
+namespace XC.C44
+/-! ## the packet grammar `ReadMessage` accepts (read.go), over the flat stream `packet.Reader` yields
+
+`packet.Reader` keeps a stack of readers: a compressed or decrypted body is pushed and read until its
+EOF, then popped silently. As a flat token stream that is `open … close`, with `close` invisible to
+`Next`. Key material availability is an oracle (`haveKey`). -/
+
+inductive Tok where
+  | skesk | pkesk | seipd | comp | close | ops (last : Bool) | lit | sig | other
+deriving DecidableEq, Repr
+
+inductive MsgRes where
+  | err                                   -- ReadMessage or reading the body reports an error
+  | ok (encrypted signed verified : Bool)  -- plaintext delivered; flags as in MessageDetails
+deriving DecidableEq, Repr
+
+/-- `Reader.Next`: pops exhausted inner readers -/
+def tnext : List Tok → Option (Tok × List Tok)
+  | [] => none
+  | .close :: r => tnext r
+  | t :: r => some (t, r)
+
+theorem tnext_lt {s r : List Tok} {t : Tok} (h : tnext s = some (t, r)) : r.length < s.length := by
+  induction s with
+  | nil => simp [tnext] at h
+  | cons a x ih =>
+    cases a <;> simp only [tnext, Option.some.injEq, Prod.mk.injEq] at h
+    all_goals first
+      | (obtain ⟨_, rfl⟩ := h; simp)
+      | (have := ih h; simp; omega)
+
+/-- after the literal body has been read to EOF: `signatureCheckReader` wants a signature packet next -/
+def afterLiteral (enc signed : Bool) (s : List Tok) : MsgRes :=
+  if !signed then .ok enc false false
+  else match tnext s with
+    | some (.sig, _) => .ok enc true true
+    | _ => .err                            -- SignatureError: missing / not a signature
+
+/-- skip an unopened container (its contents are never pushed): drop up to its matching `close` -/
+def skipBody : Nat → List Tok → List Tok
+  | _, [] => []
+  | d, .close :: r => if d == 0 then r else skipBody (d - 1) r
+  | d, .seipd :: r => skipBody (d + 1) r
+  | d, .comp :: r => skipBody (d + 1) r
+  | d, _ :: r => skipBody d r
+
+theorem skipBody_le (d : Nat) (s : List Tok) : (skipBody d s).length ≤ s.length := by
+  induction s generalizing d with
+  | nil => simp [skipBody]
+  | cons a t ih =>
+    cases a <;> simp only [skipBody, List.length_cons]
+    all_goals first
+      | (split <;> first | omega | (have := ih (d - 1); omega))
+      | (have := ih d; omega)
+      | (have := ih (d + 1); omega)
+
+/-- `readSignedMessage`: find the literal data, noting a one-pass signature and descending into compressed data -/
+def readSigned (enc signed : Bool) (s : List Tok) : MsgRes :=
+  match h : tnext s with
+  | none => .err
+  | some (.comp, r) => have := tnext_lt h; readSigned enc signed r
+  | some (.ops last, r) => have := tnext_lt h; if !last then .err else readSigned enc true r
+  | some (.lit, r) => afterLiteral enc signed r
+  | some (.seipd, r) =>
+    -- not a case of the switch: the packet is dropped together with its (never decrypted) contents
+    have : (skipBody 0 r).length < s.length := by have := tnext_lt h; have := skipBody_le 0 r; omega
+    readSigned enc signed (skipBody 0 r)
+  | some (_, r) => have := tnext_lt h; readSigned enc signed r
+termination_by s.length
+
+/-- `ReadMessage`: collect key packets up to the encrypted data packet -/
+def readMessage (haveKey : Bool) (nkeys : Nat) (s : List Tok) : MsgRes :=
+  match h : tnext s with
+  | none => .err
+  | some (.skesk, r) => have := tnext_lt h; readMessage haveKey (nkeys + 1) r
+  | some (.pkesk, r) =>
+    have := tnext_lt h
+    readMessage haveKey (if haveKey then nkeys + 1 else nkeys) r      -- only keys found in the keyring count
+  | some (.seipd, r) => if nkeys == 0 || !haveKey then .err else readSigned true false r
+  | some (.comp, r) => if nkeys != 0 then .err else readSigned false false (.comp :: r)
+  | some (.lit, r) => if nkeys != 0 then .err else readSigned false false (.lit :: r)
+  | some (.ops l, r) => if nkeys != 0 then .err else readSigned false false (.ops l :: r)
+  | some (_, r) => have := tnext_lt h; readMessage haveKey nkeys r
+termination_by s.length
+
+/-- what the writers emit -/
+def signedBody (signed : Bool) : List Tok :=
+  if signed then [.ops true, .lit, .sig] else [.lit]
+
+def writerShape (mode : String) (nrcpt : Nat) (signed compressed : Bool) : List Tok :=
+  if mode == "sign" then signedBody true
+  else
+    let keys := if mode == "sym" then [Tok.skesk] else List.replicate nrcpt Tok.pkesk
+    let inner := if compressed then [Tok.comp] ++ signedBody signed ++ [Tok.close] else signedBody signed
+    keys ++ [Tok.seipd] ++ inner ++ [Tok.close]
+
+/-- tags of the outermost packets of a shape -/
+def outerTags : Nat → List Tok → List Nat
+  | _, [] => []
+  | d, t :: r =>
+    let tag : Nat := match t with
+      | .skesk => 3 | .pkesk => 1 | .seipd => 18 | .comp => 8 | .ops _ => 4 | .lit => 11 | .sig => 2 | _ => 0
+    match t with
+    | .close => outerTags (d - 1) r
+    | .seipd | .comp => (if d == 0 then [tag] else []) ++ outerTags (d + 1) r
+    | _ => (if d == 0 then [tag] else []) ++ outerTags d r
+end XC.C44
